@@ -3,6 +3,7 @@ from __future__ import annotations
 
 import ast
 
+from .. import consteval
 from ..model import ModuleInfo, Repo
 from ..report import Run
 
@@ -120,6 +121,16 @@ def scan_module(repo: Repo, mod: ModuleInfo):
                     for extra in child.args[2:]:
                         yield from visit(extra, sc)
                     continue
+            if isinstance(child, ast.Call) and child.args:
+                # struct formats in native mode ('4Q', '@l', '=I'): byte order (and for '@' sizes and alignment) are the host's
+                fdn = repo.dotted(mod, child.func)
+                if fdn in ("struct.unpack", "struct.unpack_from", "struct.pack", "struct.pack_into", "struct.calcsize",
+                           "struct.iter_unpack", "struct.Struct"):
+                    fmt = consteval.evaluate(repo, mod, child.args[0])
+                    if isinstance(fmt, bytes):
+                        fmt = fmt.decode("latin-1")
+                    if isinstance(fmt, str) and fmt.strip() and fmt.lstrip()[0] not in "<>!" and any(ch.isalpha() and ch not in "xcbB?s p" for ch in fmt):
+                        yield (sc, "struct native byte order", child.lineno)
             if isinstance(child, (ast.Attribute, ast.Name)) and isinstance(child.ctx, ast.Load):
                 dn = repo.dotted(mod, child)
                 if dn in PURE:
@@ -279,7 +290,7 @@ def _factory_row_refs(repo: Repo, mod: ModuleInfo, node, refs):
 
 def decoder_reach(repo: Repo):
     """registry key -> every node its decoder can mention, directly or through helpers, result classes and their methods."""
-    from .. import registry
+    from .. import consteval, registry
     g = reference_graph(repo)
     out = {}
     for fam, entries in registry.load_all(repo).items():
@@ -318,7 +329,8 @@ FAMILY_OF: dict = {}        # registry key -> the family module that registers i
 #                             on which file of the family the helper that reads the host table lives in)
 
 
-WITNESS = {"ctypes.c_long": "a 64-bit word of 5 GiB reads 1073741824 where C long has 32 bits (64-bit Windows)",
+WITNESS = {"struct native byte order": "on a big-endian host (s390x) every multi-byte field of the little-endian dump reads byte-swapped",
+           "ctypes.c_long": "a 64-bit word of 5 GiB reads 1073741824 where C long has 32 bits (64-bit Windows)",
            "ctypes.c_ulong": "a 64-bit word is cut to 32 bits where C long has 32 bits (64-bit Windows)",
            "errno.errorcode": "errno 35 renders EDEADLOCK on Linux, EAGAIN on Darwin",
            "socket.SOL_SOCKET": "SOL_SOCKET is 1 on Linux, 0xffff on Darwin: level 0xffff is not recognised",
